@@ -26,6 +26,12 @@ RULE = (
 RULE += (
     ' Added after seeded round 9: wrap=True with out-of-box particles in column-major and strided position arrays.'
 )
+RULE += (
+    ' Added after seeded round 10: call history on anisotropic grids -- sequences of consecutive tsc_parallel calls in one process that keep the grid shape, nthread and the '
+    'npartition argument (default or a user value valid for the long axis only) and change the partition axis (coord) between axes of different lengths (long axis first and '
+    'revisited, occasionally a transposed shape / other nthread / other npartition in between); every call of the sequence goes through the region recorder with particles on the '
+    'stripe boundaries of the partition that call actually used, and an accepted call whose concurrent stripes share a cell is a violation whatever was called before it.'
+)
 ASSUMPTIONS = [
     'iterations of one numba prange region may run concurrently in any interleaving when nthread>1; regions are separated by a barrier; with nthread==1 nothing is concurrent',
     'the interpreted bodies are the same code objects as the compiled kernels (re-bound globals only)',
@@ -77,17 +83,24 @@ def classify(conf, conflicts):
     return 'concurrent-stripes-share-cell'
 
 
-def run_config(run, tsc, mon, rng, n1d, nthread, npartition, coord, sort, offset_cells, box, dtype, weights, long_x=False):
-    shape = [n1d, n1d, n1d]
-    # keep the grid small along the transverse axes (anisotropic grids are supported)
-    for ax in range(3):
-        if ax != coord:
-            shape[ax] = min(n1d, 8)
-    if coord != 0 and long_x:
-        shape[0] = min(4 * n1d, 96)  # partition axis shorter than the leading axis
-    shape = tuple(shape)
+def run_config(run, tsc, mon, rng, n1d, nthread, npartition, coord, sort, offset_cells, box, dtype, weights, long_x=False, shape=None, history=None):
+    if shape is not None:
+        # a given (anisotropic) grid; n1d is the length of the partition axis.  history = the calls made before this one in the same sequence
+        shape = tuple(int(x) for x in shape)
+        n1d = shape[coord]
+    else:
+        shape = [n1d, n1d, n1d]
+        # keep the grid small along the transverse axes (anisotropic grids are supported)
+        for ax in range(3):
+            if ax != coord:
+                shape[ax] = min(n1d, 8)
+        if coord != 0 and long_x:
+            shape[0] = min(4 * n1d, 96)  # partition axis shorter than the leading axis
+        shape = tuple(shape)
     np_guess = npartition
     conf = dict(n1d=n1d, nthread=nthread, npartition=npartition, coord=coord, sort=sort, offset_cells=offset_cells, box=box, dtype=np.dtype(dtype).str, weights=weights, grid_shape=list(shape))
+    if history is not None:
+        conf['history'] = [dict(h) for h in history]
     npart_for_particles = npartition if npartition else max(2, 2 * (nthread if nthread > 0 else 16))
     if abs(offset_cells) > n1d - 3:
         offset_cells = 0.5  # the periodic index helper wraps once: a shift must stay well inside one box length on every axis
@@ -168,9 +181,112 @@ def run_config(run, tsc, mon, rng, n1d, nthread, npartition, coord, sort, offset
         s0, s1 = c0['iterations'][:2]
         reg = c0['region']
         wit = dict(conf=conf, n_conflicting_cells=len(conflicts), n_with_nonzero_addend=len(harmful), example=c0, stripes=[2 * s0 + reg % 2, 2 * s1 + reg % 2], stripe_width_cells=n1d / used)
+        if history:
+            # the call was made after other calls of a sequence: the property does not depend on what was called before, so the
+            # overlap is a violation as it stands; the witness says what the same call does on a fresh instance of the module
+            wit['classification_of_overlap'] = key
+            wit['same_call_on_fresh_module_instance'] = isolated_outcome(run, tsc, conf, pos, offset)
+            key = 'unsafe-stripes-after-call-history'
         run.violation(key, wit)
         return 'race'
     return 'ok'
+
+
+_FRESH = [0]
+
+
+def isolated_outcome(run, tsc, conf, pos, offset):
+    """Witness information only (never decides): the same call on a newly executed copy of the module (own module-level state)."""
+    if _FRESH[0] >= 2:
+        return 'not computed (only for the first two witnesses: each fresh copy recompiles the kernels)'
+    _FRESH[0] += 1
+    try:
+        import importlib.util
+
+        spec = importlib.util.spec_from_file_location(f'_c07_fresh_tsc_{_FRESH[0]}', tsc.__file__)
+        mod = importlib.util.module_from_spec(spec)
+        spec.loader.exec_module(mod)
+        with mas.TscRaceMonitor(mod) as m2, warnings.catch_warnings():
+            warnings.simplefilter('ignore')
+            try:
+                mod.tsc_parallel(pos.copy(), np.zeros(tuple(conf['grid_shape']), dtype=np.float64), conf['box'], weights=None, nthread=conf['nthread'], wrap=False, npartition=conf['npartition'], sort=conf['sort'], coord=conf['coord'], offset=offset)
+            except ValueError as e:
+                return dict(result='rejected', error=str(e)[:120])
+            return dict(result='accepted', npartition_used=len(m2.last_starts) - 1, conflicting_cells=len(m2.rec.conflicts()))
+    except Exception as e:  # the witness is still complete without it
+        return f'not available: {type(e).__name__}: {e}'[:160]
+
+
+def history_sweep(run, tsc):
+    """Sequences of calls in this process that keep (grid shape, nthread, npartition argument) and move the partition axis between
+    axes of different lengths.  Oracle: the region recorder on every call of the sequence (what the property forbids literally);
+    what the code chose or refused in an earlier call is not compared, the property leaves the choice open."""
+    rng = run.rng(3)
+    longs = [32, 48, 64, 96, 128]
+    shorts = [8, 12, 16, 20, 24]
+    seqs = []
+    # fixed sequences: long axis first, then the short ones, then the long one again
+    for shape, nthread in (((64, 8, 8), 4), ((8, 64, 8), 16), ((16, 8, 96), 2), ((128, 24, 12), -1), ((12, 48, 12), 8)):
+        lmax, lmin = max(shape), min(shape)
+        la = int(np.argmax(shape))
+        order = [la] + [a for a in range(3) if a != la] + [la]
+        big = [p for p in range(4, lmax // 4 + 1, 2) if p > lmin // 4]
+        for npartition in (None, big[-1], big[0]):
+            seqs.append([dict(shape=shape, nthread=nthread, npartition=npartition, coord=c) for c in order])
+    for _ in range(45 if run.quick else 1500):
+        dims = [int(rng.choice(longs)), int(rng.choice(shorts)), int(rng.choice(longs + shorts))]
+        shape = tuple(int(x) for x in rng.permutation(dims))
+        lmax, lmin = max(shape), min(shape)
+        la = int(np.argmax(shape))
+        nthread = int(rng.choice([2, 3, 4, 8, 16, -1]))
+        big = [p for p in range(4, lmax // 4 + 1, 2) if p > lmin // 4]  # valid for the long axis, to be refused for the short one
+        fine = [p for p in range(2, lmax // 4 + 1, 2)]
+        u = rng.random()
+        npartition = None if u < 0.45 else int(rng.choice(big)) if (u < 0.85 and big) else int(rng.choice(fine))
+        order = [int(x) for x in rng.permutation(3)]
+        if rng.random() < 0.6:
+            order = [la] + [a for a in order if a != la]
+        order = order + [order[0]] + ([int(rng.integers(0, 3))] if rng.random() < 0.3 else [])
+        seq = []
+        for c in order:
+            if seq and rng.random() < 0.2:
+                # one other argument changes in between and the sequence goes on with it
+                v = int(rng.integers(0, 3))
+                if v == 0:
+                    shape = tuple(int(x) for x in rng.permutation(shape))
+                elif v == 1:
+                    nthread = int(rng.choice([2, 4, 16, -1]))
+                else:
+                    npartition = None if npartition else int(rng.choice(fine))
+            seq.append(dict(shape=shape, nthread=nthread, npartition=npartition, coord=c))
+        seqs.append(seq)
+    with mas.TscRaceMonitor(tsc) as mon:
+        for seq in seqs:
+            history = []
+            for call in seq:
+                shape, nthread, npartition, coord = call['shape'], call['nthread'], call['npartition'], call['coord']
+                sort = bool(rng.integers(0, 2))
+                offset_cells = [0.0, 0.5, 0.25, -0.5, 1.0][int(rng.integers(0, 5))]
+                box = [1.0, 123.0, 2000.0][int(rng.integers(0, 3))]
+                dtype = [np.float32, np.float64][int(rng.integers(0, 2))]
+                res = run_config(run, tsc, mon, rng, shape[coord], nthread, npartition, coord, sort, offset_cells, box, dtype, bool(rng.integers(0, 2)), shape=shape, history=history)
+                run.count('history_calls')
+                run.count('history_calls_' + res)
+                prev = history[-1] if history else None
+                if prev and prev['result'] in ('ok', 'race') and res in ('ok', 'race', 'rejected'):
+                    same_rest = tuple(prev['shape']) == shape and prev['nthread'] == nthread and prev['npartition'] == npartition
+                    if same_rest and prev['coord'] != coord and shape[prev['coord']] != shape[coord]:
+                        run.count('history_coord_moved_to_axis_of_other_length')
+                        if shape[coord] < shape[prev['coord']]:
+                            run.count('history_coord_moved_to_shorter_axis')
+                            run.nt(('history', shape, nthread, npartition, prev['coord'], coord))
+                            if res == 'rejected':
+                                run.count('history_rejected_on_short_axis_after_accepted_on_long_axis')
+                used = len(mon.last_starts) - 1 if res in ('ok', 'race') and mon.last_starts is not None else None
+                history.append(dict(shape=list(shape), nthread=nthread, npartition=npartition, coord=coord, result=res, npartition_used=used))
+                if run.too_many():
+                    return
+    run.sample(dict(history_example=seqs[0]))
 
 
 def acceptance_sweep(run, tsc):
@@ -371,6 +487,8 @@ def check(run):
     acceptance_sweep(run, tsc)
     if not run.too_many():
         stress(run, tsc)
+    if not run.too_many():
+        history_sweep(run, tsc)  # after all earlier workload (own random stream)
     if run.counters.get('accepted', 0) == 0 or run.counters.get('cells_recorded', 0) == 0:
         run.note_inconclusive('race monitor recorded nothing')
 
@@ -386,4 +504,11 @@ def replay(run, data):
         return stress(run, tsc)
     rng = run.rng(1)
     with mas.TscRaceMonitor(tsc) as mon:
+        if c.get('history') is not None:
+            hist = []
+            for h in c['history']:
+                if h['result'] not in ('rejected', 'indexerror'):
+                    run_config(run, tsc, mon, rng, h['shape'][h['coord']], h['nthread'], h['npartition'], h['coord'], False, 0.0, c['box'], np.dtype(c['dtype']).type, False, shape=h['shape'], history=hist)
+                hist.append(h)
+            return run_config(run, tsc, mon, rng, c['n1d'], c['nthread'], c['npartition'], c['coord'], c['sort'], c['offset_cells'], c['box'], np.dtype(c['dtype']).type, c['weights'], shape=c['grid_shape'], history=hist)
         run_config(run, tsc, mon, rng, c['n1d'], c['nthread'], c['npartition'], c['coord'], c['sort'], c['offset_cells'], c['box'], np.dtype(c['dtype']).type, c['weights'], long_x=bool(c.get('grid_shape') and c['grid_shape'][0] > c['n1d']))
